@@ -28,6 +28,7 @@
   correspondence of yielded sequence and tables, independent language oracle), not proved.
 -/
 import PS.Proofs.Enum.BeapSoundRun
+import PS.Proofs.Enum.BeapFrontier
 namespace PS.C02Beap
 open PS PS.G PS.Beap
 
@@ -101,6 +102,60 @@ theorem C02_Beap_heappush_mem {α : Type} (lt : α → α → Bool) (h : List α
 theorem C02_Beap_heappop_mem {α : Type} (lt : α → α → Bool) (h h' : List α) (x y : α)
     (hp : Heapq.pop lt h = some (x, h')) : y ∈ h ↔ y = x ∨ y ∈ h' := mem_of_pop lt h x h' hp y
 end
+
+/-! ### the frontier rule (no duplicates): every combination has exactly one producer -/
+
+/-- **frontier rule**: `t` is pushed from the combination `c` (cost lists of lengths `lens`) iff `t = c + e_i`
+    for a position `i` all of whose predecessors are 0 in `c` — i.e. `i` is the first non-zero coordinate
+    of `t` — and the new index `t[i]` is inside the cost list of argument `i` -/
+theorem C02_Beap_frontier_iff (c t lens : List Nat) :
+    t ∈ succCombs c 0 lens ↔
+      ∃ i, i < lens.length ∧ (∀ j, j < i → c.getD j 0 = 0) ∧ t = c.set i (c.getD i 0 + 1) ∧ c.getD i 0 + 1 < lens.getD i 0 := by
+  rw [mem_succCombs]
+  constructor
+  · rintro ⟨i, _, h2, h3, h4, h5⟩
+    exact ⟨i, by omega, fun j hj => h3 j (Nat.zero_le _) hj, h4, by simpa using h5⟩
+  · rintro ⟨i, h2, h3, h4, h5⟩
+    exact ⟨i, Nat.zero_le _, by omega, fun j _ hj => h3 j hj, h4, by simpa using h5⟩
+
+/-- **a combination is pushed from at most one combination** (the bijection lemma: the producer of `t` is
+    `t` with its first non-zero coordinate decremented) -/
+theorem C02_Beap_frontier_unique_producer (c c' t lens : List Nat) (hc : c.length = lens.length) (hc' : c'.length = lens.length)
+    (h : t ∈ succCombs c 0 lens) (h' : t ∈ succCombs c' 0 lens) : c = c' :=
+  succCombs_producer_unique c c' t lens hc hc' h h'
+
+/-- **every non-zero combination inside the box of the cost lists is pushed** from a combination inside the
+    box whose coordinate sum is smaller by one (so, by induction on the sum, from `0ᵏ` every combination of
+    the box is reached) -/
+theorem C02_Beap_frontier_producer_exists (t lens : List Nat) (ht : t.length = lens.length)
+    (hbox : ∀ j, j < t.length → t.getD j 0 < lens.getD j 0) (i : Nat) (hi : i < t.length)
+    (hfirst : ∀ j, j < i → t.getD j 0 = 0) (hnz : 0 < t.getD i 0) :
+    t ∈ succCombs (t.set i (t.getD i 0 - 1)) 0 lens ∧
+      (∀ j, j < t.length → (t.set i (t.getD i 0 - 1)).getD j 0 < lens.getD j 0) ∧
+      (t.set i (t.getD i 0 - 1)).getD i 0 + 1 = t.getD i 0 :=
+  succCombs_producer_exists t lens ht hbox i hi hfirst hnz
+
+/-- the combinations pushed from one combination are pairwise distinct -/
+theorem C02_Beap_frontier_nodup (c lens : List Nat) (h : lens.length ≤ c.length) : (succCombs c 0 lens).Nodup :=
+  succCombs_nodup c lens 0 (by omega)
+
+/-- **the model's successor loop is the frontier rule**: after "Generate next combinations"
+    (beap_search.py:177-193) the queue of `S` is, as a multiset, the queue before plus one element of rule `P`
+    for each combination of `succCombs`, and no other queue changes -/
+theorem C02_Beap_frontier_model {S : Type} [DecidableEq S] (nt : NT S Unit) (cost : Cost) (P : Sym) (comb : List Nat)
+    (sargs : List (NT S Unit)) (s : St S) :
+    ∃ pushed : List HeapEl,
+      ((succLoop nt cost P comb s 0 sargs).queueOf nt).Perm (pushed ++ s.queueOf nt) ∧
+      pushed.map (·.comb) = succCombs comb 0 (sargs.map fun a => (s.clOf a).length) ∧
+      (∀ el ∈ pushed, el.P = P) ∧
+      ∀ nt', nt' ≠ nt → (succLoop nt cost P comb s 0 sargs).queueOf nt' = s.queueOf nt' :=
+  ⟨succEls cost P comb s 0 sargs, (succLoop_perm nt cost P comb sargs s 0).1, succEls_comb cost P comb s sargs 0,
+    succEls_P cost P comb s sargs 0, (succLoop_perm nt cost P comb sargs s 0).2⟩
+
+/-- non-vacuity: from `[0, 1, 0]` with cost lists of lengths 3, 3, 3 the loop pushes `[1,1,0]` and `[0,2,0]`
+    (and stops: position 1 now has index 2 > 1); `[0,2,0]` is also what `[0,2,0]`'s unique producer rule says -/
+example : succCombs [0, 1, 0] 0 [3, 3, 3] = [[1, 1, 0], [0, 2, 0]] := by decide
+example : succCombs [0, 0, 0] 0 [3, 1, 3] = [[1, 0, 0], [0, 0, 1]] := by decide
 
 /-! ### non-vacuity: the grammar of seeded/C03-2/demo.py
     `X -> p(Y) | m(X, Z) | a`, `Y -> q(Z) | b`, `Z -> r(X) | c`; the cheapest programs of `Y` and `Z`
